@@ -3,6 +3,7 @@ package checks
 import (
 	"fmt"
 	"go/ast"
+	"go/token"
 	"go/types"
 	"sort"
 	"strings"
@@ -471,6 +472,15 @@ func onlyFeedsLogging(v ssa.Value, depth int, seen map[ssa.Value]bool) bool {
 			if !onlyFeedsLogging(x, depth+1, seen) {
 				return false
 			}
+		case *ssa.BinOp:
+			switch x.Op {
+			case token.ADD, token.SUB, token.MUL, token.QUO:
+				if !onlyFeedsLogging(x, depth+1, seen) {
+					return false
+				}
+			default:
+				return false // a comparison: the clock would steer control flow
+			}
 		case *ssa.Store:
 			if x.Addr == v {
 				continue // v is a cell being written
@@ -511,6 +521,8 @@ func onlyFeedsLogging(v ssa.Value, depth int, seen map[ssa.Value]bool) bool {
 				}
 			case pkg == "github.com/rs/zerolog" || pkg == "log" || strings.HasSuffix(pkg, "/logging"):
 				// a log field or message: the value ends here
+			case pkg == "sync/atomic" || strings.HasPrefix(pkg, "github.com/prometheus/client_golang/prometheus"):
+				// a statistics counter / metric observation: the value ends here
 			default:
 				return false
 			}
